@@ -375,32 +375,61 @@ func (w *W3) Create(a T3Args) (type3.RateLimitedTokenRequestState, error) {
 
 // Flow runs client -> attester -> issuer -> attester -> client with every message as bytes.
 func (w *W3) Flow(att *type3.RateLimitedAttester, a T3Args) (*Out, *StageErr) {
+	p, se := w.Begin(att, a)
+	if se != nil {
+		return p.Out, se
+	}
+	return w.End(att, p)
+}
+
+// Pending3 is a rate-limited request that the attester has verified and the issuer has answered,
+// whose index has not been finalized yet (a request in flight).
+type Pending3 struct {
+	Out  *Out
+	a    T3Args
+	st   type3.RateLimitedTokenRequestState
+	resp []byte
+	brk  []byte
+}
+
+// Begin runs the first half of Flow: create, attester VerifyRequest, issuer Evaluate.
+func (w *W3) Begin(att *type3.RateLimitedAttester, a T3Args) (*Pending3, *StageErr) {
+	p := &Pending3{a: a}
 	st, err := w.Create(a)
 	if err != nil {
-		return nil, stage("client-create", err)
+		return p, stage("client-create", err)
 	}
+	p.st = st
 	o := &Out{KeyID: w.KeyID, Pub: &w.Key.PublicKey}
+	p.Out = o
 	o.Request = append([]byte{}, st.Request().Marshal()...)
 	o.ClientKey = append([]byte{}, st.ClientKey()...)
 	dec := new(type3.RateLimitedTokenRequest)
 	if !dec.Unmarshal(o.Request) {
-		return o, stagef("attester-decode", "request of %d bytes rejected", len(o.Request))
+		return p, stagef("attester-decode", "request of %d bytes rejected", len(o.Request))
 	}
 	if err := att.VerifyRequest(*dec, a.Blind, o.ClientKey, a.AnonOrigin); err != nil {
-		return o, stage("attester-verify", err)
+		return p, stage("attester-verify", err)
 	}
 	resp, brk, err := w.Issuer.Evaluate(append([]byte{}, o.Request...))
 	if err != nil {
-		return o, stage("issuer-evaluate", err)
+		return p, stage("issuer-evaluate", err)
 	}
+	p.resp, p.brk = resp, brk
 	o.Response = append([]byte{}, resp...)
 	o.BlindedReqKey = append([]byte{}, brk...)
-	idx, err := att.FinalizeIndex(o.ClientKey, a.Blind, brk, a.AnonOrigin)
+	return p, nil
+}
+
+// End runs the second half of Flow: attester FinalizeIndex, client FinalizeToken.
+func (w *W3) End(att *type3.RateLimitedAttester, p *Pending3) (*Out, *StageErr) {
+	o := p.Out
+	idx, err := att.FinalizeIndex(o.ClientKey, p.a.Blind, p.brk, p.a.AnonOrigin)
 	if err != nil {
 		return o, stage("attester-index", err)
 	}
 	o.IndexID = idx
-	tok, err := st.FinalizeToken(append([]byte{}, resp...))
+	tok, err := p.st.FinalizeToken(append([]byte{}, p.resp...))
 	if err != nil {
 		return o, stage("client-finalize", err)
 	}
